@@ -89,15 +89,7 @@ def check_history(case, orthonormality=True):
             get_regime = (lambda t, x, tm=tm: _core.DeformationRegime(r2 if t >= tm else r_init))  # noqa: E731
         try:
             if mode == 1:
-                F = sut(
-                    pydrex.update_all,
-                    [mineral],
-                    params,
-                    F,
-                    flow.get_velocity_gradient,
-                    (flow.t_of(ta), flow.t_of(tb), flow.get_position),
-                    allowed=hist.SOLVER_ERRORS,
-                )
+                F = hist.update_bulk([mineral], params, F, flow, ta, tb)
             else:
                 F = hist.update(mineral, params, F, flow, ta, tb, get_regime=get_regime)
         except Rejected:
